@@ -124,7 +124,7 @@ example : ∃ s, runActs (init 1 1) [.enqueue 1 0 false, .recv 0, .take, .stop, 
   refine ⟨_, rfl, ?_⟩; decide
 ''',
 }
-MONSOUND = {"C04": "\n/-! ### the model passes the monitor the driver applies to the implementation (no false alarm on a conforming implementation) -/\ntheorem C04_model_passes_monitor (W L : Nat) (s : St) (h : Reach W L s) :\n    Mon.atMostOnce (Driver.WQ.obsOf s) = true := MonSound.atMostOnce_sound h\n", "C09": "\n/-! ### the model passes the monitors the driver applies to the implementation\n\n`mstOf s` is the bookkeeping the driver has recorded from the script when the implementation has answered like\nthe model; `obsOf s` is the model's own observation. -/\ntheorem C09_model_passes_monitor_workers (W L : Nat) (s : St) (h : Reach W L s) :\n    Mon.workersOK (MonSound.mstOf s) (Driver.WQ.obsOf s) = true := MonSound.workersOK_sound h\n\n/-- (false for `L = 0`: the dispatcher then pops an empty queue — witness in TV/Proofs/MonitorWQ.lean.) -/\ntheorem C09_model_passes_monitor_work_conserving (W L : Nat) (s : St) (h : Reach W L s) (hL : 1 ≤ L) (hq : quiescent s) :\n    Mon.workConserving (MonSound.mstOf s) (Driver.WQ.obsOf s) = true := MonSound.workConserving_sound hL h hq\n\ntheorem C09_model_passes_monitor_backpressure (W L : Nat) (s : St) (h : Reach W L s) (hs : s.stopped = false) :\n    Mon.outstanding (MonSound.mstOf s) (Driver.WQ.obsOf s) ≤ (MonSound.mstOf s).Lmax + 2 * (MonSound.mstOf s).W + 1 :=\n  MonSound.backPressureUpper_sound h hs\n", "C14": "\n/-! ### the model passes the monitor the driver applies to the implementation -/\ntheorem C14_model_passes_monitor (W L : Nat) (s : St) (h : Reach W L s) :\n    Mon.errorsOK (MonSound.mstOf s) (Driver.WQ.obsOf s) = true := MonSound.errorsOK_sound h\n", "C16": "\n/-! ### the model passes the monitor the driver applies to the implementation -/\ntheorem C16_model_passes_monitor (W L : Nat) (s : St) (h : Reach W L s) :\n    Mon.dequeuedNeverStart (MonSound.mstOf s) (Driver.WQ.obsOf s) [] = true := MonSound.dequeuedNeverStart_sound h\n", "C19": "\n/-! ### the model passes the monitor the driver applies to the implementation: whatever starts after Stop or Break\n    was submitted before it (`s0.nextId` = ordinals issued when Stop/Break was called, as the driver records it) -/\ntheorem C19_model_passes_monitor (W L : Nat) (s0 s1 s : St) (a : Act) (h0 : Reach W L s0) (ha : a = .stop ∨ a = .break_)\n    (h1 : step? s0 a = some s1) (hsteps : MonSound.Steps s1 s) :\n    (Driver.WQ.obsOf s).started.all (· < s0.nextId) = true := MonSound.afterStop_at_stop_sound h0 ha h1 hsteps\n"}
+MONSOUND = {"C04": "\n/-! ### the model passes the monitor the driver applies to the implementation (no false alarm on a conforming implementation) -/\ntheorem C04_model_passes_monitor (W L : Nat) (s : St) (h : Reach W L s) :\n    Mon.atMostOnce (Driver.WQ.obsOf s) = true := MonSound.atMostOnce_sound h\n", "C09": "\n/-! ### the model passes the monitors the driver applies to the implementation\n\n`mstOf s` is the bookkeeping the driver has recorded from the script when the implementation has answered like\nthe model; `obsOf s` is the model's own observation. -/\ntheorem C09_model_passes_monitor_workers (W L : Nat) (s : St) (h : Reach W L s) :\n    Mon.workersOK (MonSound.mstOf s) (Driver.WQ.obsOf s) = true := MonSound.workersOK_sound h\n\n/-- (false for `L = 0`: the dispatcher then pops an empty queue — witness in TV/Proofs/MonitorWQ.lean.) -/\ntheorem C09_model_passes_monitor_work_conserving (W L : Nat) (s : St) (h : Reach W L s) (hL : 1 ≤ L) (hq : quiescent s) :\n    Mon.workConserving (MonSound.mstOf s) (Driver.WQ.obsOf s) = true := MonSound.workConserving_sound hL h hq\n\ntheorem C09_model_passes_monitor_backpressure (W L : Nat) (s : St) (h : Reach W L s) (hs : s.stopped = false) :\n    Mon.outstanding (MonSound.mstOf s) (Driver.WQ.obsOf s) ≤ (MonSound.mstOf s).Lmax + 2 * (MonSound.mstOf s).W + 1 :=\n  MonSound.backPressureUpper_sound h hs\n", "C14": "\n/-! ### the model passes the monitor the driver applies to the implementation -/\ntheorem C14_model_passes_monitor (W L : Nat) (s : St) (h : Reach W L s) :\n    Mon.errorsOK (MonSound.mstOf s) (Driver.WQ.obsOf s) = true := MonSound.errorsOK_sound h\n", "C16": "\n/-! ### the model passes the monitor the driver applies to the implementation -/\ntheorem C16_model_passes_monitor (W L : Nat) (s : St) (h : Reach W L s) :\n    Mon.dequeuedNeverStart (MonSound.mstOf s) (Driver.WQ.obsOf s) [] = true := MonSound.dequeuedNeverStart_sound h\n", "C19": "\n/-! ### the model passes the monitor the driver applies to the implementation: whatever starts after Stop or Break\n    was submitted before it (`s0.nextId` = ordinals issued when Stop/Break was called, as the driver records it) -/\ntheorem C19_model_passes_monitor (W L : Nat) (s0 s1 s : St) (a : Act) (h0 : Reach W L s0) (ha : a = .stop ∨ a = .break_)\n    (h1 : step? s0 a = some s1) (hsteps : MonSound.Steps s1 s) :\n    (Driver.WQ.obsOf s).started.all (· < s0.nextId) = true := MonSound.afterStop_at_stop_sound h0 ha h1 hsteps\n\n/-! ### Break after Stop: the drain loop reads `breaked` before every item -/\n\n/-- once Break has been called while the dispatcher is handing the remaining work to the workers (after an earlier Stop),\n    the item it is blocked on is still handed over, and everything behind it is skipped: it ends in `limbo` and never starts. -/\ntheorem C19_break_after_stop_skips_rest (W L : Nat) (hW : 1 ≤ W) (hL : 1 ≤ L) (s s' t : St) (it : Item) (rest : List Item)\n    (hr : Reach W L s) (hd : s.disp = .drain (it :: rest)) (hb : s.breaked = true)\n    (hs : step? s .drainSend = some s') (hsteps : MonSound.Steps s' t) :\n    s'.chan = s.chan ++ [it] ∧ s'.disp = .drain [] ∧\n    ∀ x ∈ rest, x.id ∈ t.limbo.map (·.id) ∧ x.id ∉ t.started :=\n  breakAfterStop_skips_rest W L hW hL s s' t it rest hr hd hb hs hsteps\n"}
 imports = {"C04":["Safety","Live"],"C05":["Heap"],"C09":["Safety"],"C14":["Safety"],"C16":["Safety","Heap"],"C19":["Safety","Live"]}
 for prop in titles:
     with open(f"{base}/Properties/{prop}.lean","w") as f:
